@@ -833,6 +833,8 @@ SMOKE = [  # engine, props whose violations count, -n
     ('alias', ['C07'], 20),
     ('reflectdiff', ['C08'], 12),
     ('nilread', ['C09'], 0),
+    ('libdiff', ['C10'], 6),
+    ('api', ['C19'], 4),
 ]
 
 
